@@ -202,6 +202,34 @@ fn text_family(o: &mut Out, r: &mut Rng, th: bool) {
             o.op(&format!("fromstr.{}.degenerate", codec), &format!("fromstr {} {}", codec, if t.is_empty() { "-".to_string() } else { hex(t.as_bytes()) }));
         }
     }
+    // JSON key files through the file entry points: every kind of file name, missing paths, directories; contents
+    // valid, invalid, and larger than any buffer (a valid document padded with whitespace, then junk / a second key)
+    {
+        let jsn = |v: &[u8]| -> Vec<u8> { format!("[{}]", v.iter().map(|x| x.to_string()).collect::<Vec<_>>().join(",")).into_bytes() };
+        for (codec, n) in [("keypair", 64usize), ("pubkey", 32), ("secret", 32), ("aekey", 16)] {
+            let good = jsn(&valid_object(r, codec));
+            let other = jsn(&valid_object(r, codec));
+            let mut contents: Vec<Vec<u8>> = vec![good.clone(), jsn(&r.bytes(n)), jsn(&r.bytes(n - 1)), b"not json".to_vec(), vec![], b"[]".to_vec()];
+            for pad in [300usize, 1023, 1024, 4095, 4096, 4097, 8192, 65536] {
+                let mut padded = good.clone();
+                while padded.len() < pad { padded.push(b' '); }
+                contents.push(padded.clone());                                           // trailing whitespace only: fine
+                let mut j = padded.clone(); j.extend(b"garbage"); contents.push(j);      // junk after the padding
+                let mut j = padded.clone(); j.extend(&other); contents.push(j);          // a second document after the padding
+                let mut j = padded.clone(); j.push(b']'); contents.push(j);
+                let mut j = padded.clone(); j.push(0); contents.push(j);
+            }
+            let mut lead = vec![b' '; 5000]; lead.extend(&good); contents.push(lead);   // leading whitespace beyond a page
+            for (ci, c) in contents.iter().enumerate() {
+                let kinds: &[&str] = if ci < 6 { &["plain", "spaces", "nonutf8", "long"] } else { &["plain", "nonutf8"] };
+                for kind in kinds {
+                    if !th && ci >= 6 && codec != "keypair" && *kind == "nonutf8" { continue; }
+                    o.op(&format!("jsonfile.{}.{}", codec, kind), &format!("jsonfile {} {} {}", codec, if c.is_empty() { "-".to_string() } else { hex(c) }, kind));
+                }
+            }
+            for kind in ["missing", "dir"] { o.op(&format!("jsonfile.{}.{}", codec, kind), &format!("jsonfile {} {} {}", codec, hex(&good), kind)); }
+        }
+    }
     // JSON key files
     let json = |v: &[u8]| -> String { format!("[{}]", v.iter().map(|x| x.to_string()).collect::<Vec<_>>().join(",")) };
     for (codec, n) in [("keypair", 64usize), ("pubkey", 32), ("secret", 32), ("aekey", 16)] {
@@ -527,6 +555,10 @@ pub fn gen_c09(o: &mut Out, tier: &str, seed: u64) {
     let mut r = Rng::new(seed, "c09");
     let th = tier == "thorough";
     let reps = if th { 30 } else { 2 };
+    // key pairs derived from a signer are consistent (public = s^-1 * H) whatever the signer answers later
+    for _ in 0..(if th { 20 } else { 3 }) {
+        o.op("derived-keypair.signer", &format!("kdf elgamal signer {} {}", hex(&r.bytes(64)), hex(&r.bytes(12))));
+    }
     // randomized grouped encryption with every arrangement of (possibly coinciding) key objects
     for pattern in ["", "0", "00", "01", "10", "000", "001", "010", "011", "100", "012", "021", "101", "110", "122", "221"] {
         for a in [0u64, 1, 65535, (1 << 32) - 1, 1 << 32, u64::MAX] {
